@@ -119,8 +119,8 @@ func runStorageHistory(c *violSink, caseID string, dir string, ops []stOp, input
 		return st, db.NewDatabaseWithStorage(st)
 	}
 	st, dbase := open()
-	ref := map[string][]byte{}    // file name (key without ':') -> value; the reference map
-	ents := map[string]refEnt{}   // entity name -> entity
+	ref := map[string][]byte{}  // file name (key without ':') -> value; the reference map
+	ents := map[string]refEnt{} // entity name -> entity
 	norm := func(k []byte) string { return strings.Replace(string(k), ":", "", -1) }
 	nontrivial := false
 	reopened := false
